@@ -7,6 +7,7 @@ import Bermuda.Lemmas.Units
 import Bermuda.Lemmas.UnitsPolicy
 import Bermuda.Lemmas.UnitsDisagg
 import Bermuda.Lemmas.UnitsBridge
+import Bermuda.Lemmas.UnitsTiling
 import Bermuda.Spec.C18
 namespace Bermuda.Properties.C18
 open Bermuda Bermuda.Units Bermuda.Spec.C18
@@ -266,14 +267,35 @@ theorem disagg_conserves {t out : List Cell} {res : Nat} {weights : Option (List
                           rw [List.flatten_flatten]
                           exact hperm
 
--- OPEN disagg_tiling
--- calendar reading of `obsSubs` for first-of-month period starts: the kept sub-periods are
--- consecutive whole `res`-month blocks forming a prefix of the period (`Spec.C18.tiles`, `complete`,
--- `observable`) — facts about `addMonths` on first-of-month dates (C12 territory).
--- Checked on the implementation's output by `Spec.C18.disaggSpec` in every run; the bridge
---   disaggregateExperience t res ws fields = .ok out →
---   Spec.C18.disaggSpec res (fields.getD defaultInterpolationFields) 0 t out = true
--- is not proved.
+/-- **disagg_tiling** (calendar reading of `obsSubs`). For a period that starts on the first of a
+month from 1970 on, sub-period `k` is `[first of month M0 + k·res, last of month M0 + (k+1)·res − 1]`
+(`M0` the month index of the period start): whole `res`-month blocks, each starting the day after
+the previous one ends, with strictly increasing ends — and the ones kept by the observability filter
+are the first `j` of them. -/
+theorem disagg_tiling {c : Cell} {res : Nat} (hr : 1 ≤ res) (hd : c.ps.d = 1)
+    (h70 : 0 ≤ monthToId c.ps) (n : Nat) :
+    subperiods c.ps res n = (List.range n).map (subOf (monthToId c.ps) res) ∧
+    (∀ k, (subOf (monthToId c.ps) res (k + 1)).1 = (subOf (monthToId c.ps) res k).2.succ) ∧
+    (∀ j k, j < k → (subOf (monthToId c.ps) res j).2 < (subOf (monthToId c.ps) res k).2) ∧
+    ∃ j, j ≤ n ∧ obsSubs c res n = (List.range j).map (subOf (monthToId c.ps) res) :=
+  ⟨subperiods_firstOf hd h70 res n, subOf_consecutive _ res, fun _ _ h => subOf_end_lt hr h,
+   obsSubs_prefix hr hd h70 n⟩
+
+/-- **disagg_spec_bridge.** the executable predicate (exact, `tol = 0`) holds on the model's own
+output — unless the triangle is returned as is — under the decidable well-formedness `disaggWF`
+(per slice: resolution `L` a multiple of `res`, periods of exactly `L` months starting on the first
+of a month from 1970 on, no repeated cell, distinct-key value dicts, disjoint periods at equal
+evaluation dates; the driver evaluates it on every generated case). `disaggSpec` checks, per input
+cell: the output cells of its slice and evaluation date on its expected sub-periods are exactly
+those sub-periods, each once (tiling, nothing missing), plain Cells with exactly the selected
+fields, every selected field adding up; and nothing else is in the output. -/
+theorem disagg_spec_bridge {t out : List Cell} {res : Nat} {weights : Option (List Num)}
+    {fields : Option (List String)} (hwf : disaggWF res t = true)
+    (h : disaggregateExperience t res weights fields = .ok out) :
+    out = t ∨ disaggSpec res (fields.getD Generated.Units.defaultInterpolationFields) 0 t out = true := by
+  rcases disaggregateExperience_core h with h1 | ⟨ws, hws, hcore⟩
+  · exact .inl h1
+  · exact .inr (disaggCore_spec hwf hws hcore)
 
 -- OPEN aggregate_disagg
 --   aggregate tr (disaggregateExperience t res ws fields) {periodRes := (L, "month"), periodOrigin := first ps − 1 day}
